@@ -190,6 +190,30 @@ class SSHChannel(Generic[AnyStr], SSHPacketHandler):
             self._encoder = None
             self._decoder = None
 
+        self._ext_decoders: Dict[DataType, codecs.IncrementalDecoder] = {}
+
+    def _get_decoder(self, datatype: DataType) -> codecs.IncrementalDecoder:
+        """Return the incremental decoder for a data type
+
+           Each extended data type is a separate character stream, so
+           a character split across packets of one type must not be
+           completed by bytes which arrive for another type.
+
+        """
+
+        assert self._encoding is not None
+        assert self._decoder is not None
+
+        if datatype is None:
+            return self._decoder
+
+        try:
+            return self._ext_decoders[datatype]
+        except KeyError:
+            decoder = codecs.getincrementaldecoder(self._encoding)(self._errors)
+            self._ext_decoders[datatype] = decoder
+            return decoder
+
     def get_recv_window(self) -> int:
         """Return the configured receive window for this channel"""
 
@@ -355,6 +379,9 @@ class SSHChannel(Generic[AnyStr], SSHPacketHandler):
                 try:
                     assert self._decoder is not None
                     self._decoder.decode(b'', True)
+
+                    for decoder in self._ext_decoders.values():
+                        decoder.decode(b'', True)
                 except UnicodeDecodeError as unicode_exc:
                     raise ProtocolError(str(unicode_exc)) from None
 
@@ -387,8 +414,8 @@ class SSHChannel(Generic[AnyStr], SSHPacketHandler):
 
         if self._encoding:
             try:
-                assert self._decoder is not None
-                decoded_data = cast(AnyStr, self._decoder.decode(data))
+                decoder = self._get_decoder(datatype)
+                decoded_data = cast(AnyStr, decoder.decode(data))
             except UnicodeDecodeError as unicode_exc:
                 raise ProtocolError(str(unicode_exc)) from None
         else:
